@@ -61,6 +61,8 @@ type c16Host struct {
 	sleepPm   int // per-mille of jitter calls that sleep
 	yieldPm   int
 	chNames   map[uintptr]string // channels the script has named with chname(ch, name)
+	undecided string             // non-empty: a host-side wait on goroutine states gave up (inconclusive)
+	undecDet  string
 }
 
 // named basic types the workload binds into the environment (DefineType): a
@@ -211,6 +213,52 @@ func (h *c16Host) define(def func(string, interface{}) error) {
 		h.ev()
 		h.fails = append(h.fails, ank.Render(k)+": "+fmt.Sprint(e))
 		h.stop()
+	})
+	// sendersparked(n) returns once n interpreter goroutines are parked in a channel
+	// operation issued by a send / receive EXPRESSION (vm invokeChanExpr): the script
+	// calls it on its main goroutine after it has started n senders that must block
+	// (no receiver / full buffer), so that what it does next is ordered after the
+	// evaluation of the operands of those sends. Decided on goroutine states only (the
+	// timer paces the sampling); when the states never show up the run is inconclusive.
+	def("sendersparked", func(n int64) {
+		h.mu.Lock()
+		h.ev()
+		h.mu.Unlock()
+		for i := 0; ; i++ {
+			if i < 40 {
+				runtime.Gosched()
+			} else {
+				time.Sleep(100 * time.Microsecond)
+			}
+			if i%4 != 3 {
+				continue
+			}
+			h.mu.Lock()
+			stopped := h.cancelled
+			h.mu.Unlock()
+			if stopped {
+				return
+			}
+			c16IgnoreMu.RLock()
+			s := c16TakeSample(c16Ignore)
+			c16IgnoreMu.RUnlock()
+			cnt := 0
+			for _, g := range s.gs {
+				if g.parked && strings.HasSuffix(g.op, "invokeChanExpr") {
+					cnt++
+				}
+			}
+			if cnt >= int(n) {
+				return
+			}
+			if i > 40000 {
+				h.mu.Lock()
+				h.undecided = "blocked-senders-never-seen-parked"
+				h.undecDet = fmt.Sprintf("%d of %d senders seen parked\n%s", cnt, n, s.text)
+				h.mu.Unlock()
+				return
+			}
+		}
 	})
 	def("jitter", func() {
 		h.mu.Lock()
@@ -366,6 +414,10 @@ type c16Run struct {
 
 var c16Ignore = map[string]bool{} // goroutines of earlier cases that could not be removed
 
+// c16IgnoreMu: c16Ignore is written by the goroutine that runs the cases (c16Execute) and
+// read by it and by sendersparked, which runs on a script goroutine
+var c16IgnoreMu sync.RWMutex
+
 const (
 	c16PollEvery = 15 * time.Millisecond
 	c16MaxPolls  = 1200
@@ -484,11 +536,31 @@ func c16Execute(c *wk.Case, p *c16Prog, procs int, h *c16Host) *c16Run {
 	c.Begin(p.input(procs))
 	// mode "exec": vm.Execute (no context of the host's); otherwise vm.ExecuteContext
 	// under the context of this run
+	// "ctx-released" / "run-released": vm.ExecuteContext / parser + vm.RunContext under a
+	// context of this call's own, which is cancelled as soon as the call has returned (the
+	// usual `ctx, cancel := context.With...; defer cancel()` around one call). Only calls
+	// that start no goroutine get these modes (the goroutines of a call share its context).
 	run := func(src, mode string) ank.Out {
 		done := make(chan ank.Out, 1)
-		if mode == "exec" {
+		switch mode {
+		case "exec":
 			go func() { done <- ank.Exec(e, src) }()
-		} else {
+		case "ctx-released", "run-released":
+			own, release := context.WithCancel(ctx)
+			defer release()
+			if mode == "ctx-released" {
+				go func() { done <- ank.ExecCtx(own, e, src) }()
+			} else {
+				go func() {
+					stmt, err, o := ank.Parse(src)
+					if o.Panicked || err != nil {
+						done <- o
+						return
+					}
+					done <- ank.RunCtx(own, e, stmt)
+				}()
+			}
+		default:
 			go func() { done <- ank.ExecCtx(ctx, e, src) }()
 		}
 		return c16Await(done, h, cancel, r)
@@ -542,9 +614,11 @@ func c16Execute(c *wk.Case, p *c16Prog, procs int, h *c16Host) *c16Run {
 	if !c16Quiesce(base) {
 		// could not be removed even by cancellation: keep them out of later samples
 		s := c16TakeSample(c16Ignore)
+		c16IgnoreMu.Lock()
 		for _, g := range s.gs {
 			c16Ignore[g.id] = true
 		}
+		c16IgnoreMu.Unlock()
 		if r.leftover == "" {
 			r.leftover = "goroutines-survive-cancel"
 			r.leakDet = s.text
@@ -609,6 +683,7 @@ func (p *c16Prog) input(procs int) map[string]interface{} {
 			pre = append(pre, st.mode+": "+st.src)
 		}
 		in["earlier_calls_on_the_same_env"] = pre
+		in["call_modes"] = "exec = vm.Execute; ctx = vm.ExecuteContext under the context of the whole program; ctx-released / run-released = vm.ExecuteContext / parser.ParseSrc + vm.RunContext under a context of the call's own that is cancelled when the call has returned"
 		in["main_call"] = p.mainMode
 		if p.hostIO != nil {
 			in["host_between_calls"] = p.hostIO.describe()
@@ -1599,7 +1674,7 @@ var c16SemCaps = []int{0, 1, 3}
 var c16SemScen = func() []string {
 	l := []string{"assign-stmt", "recv-expr", "ok-form", "forin", "blocked-recv-woken-by-close", "errors-try", "errors-top-send", "errors-top-close", "go-snapshot", "go-shared-entry", "go-generator", "nil-messages", "go-shared-call-site",
 		"forin-body-recv", "chan-from-slot", "send-converts",
-		"relay", "forin-body-errors", "forin-body-error-top-send", "forin-body-error-top-close"}
+		"relay", "forin-body-errors", "forin-body-error-top-send", "forin-body-error-top-close", "blocked-send-operand"}
 	if !c16PendingFix_forinSlotOperand {
 		l = append(l, "forin-slot-operand")
 	}
@@ -1866,6 +1941,47 @@ func c16Semantic(idx int) *c16Prog {
 			g.expect("conv-direct", "send-converts:wrong-items", want...)
 		}
 		g.p.recvForm["int64(0)"] = "forin"
+	case "blocked-send-operand":
+		// "every value sent is received": the value sent is the value the operand had when
+		// the send statement was executed, also when the sender has to wait for its receiver
+		// (no receiver yet / full buffer) and the place the operand was read from - an element
+		// of a []T, a struct field of type T, *p of a *T (T = the element type, so no
+		// conversion makes a copy), a variable, a list element, a map entry - is assigned
+		// another value while it waits; Go's `c <- s[0]` evaluates s[0] before it blocks.
+		// Ordering: the main goroutine starts the six senders, calls sendersparked(6), which
+		// returns once all of them are parked in the send (goroutine states), and only then
+		// overwrites the places and receives. a and b have been through a channel of the
+		// element type: they are values of exactly that type.
+		fmt.Fprintf(m, "t = make(chan %s, 2); t <- %s; t <- %s; a = <-t; b = <-t\n", el.decl, it(0), it(1))
+		fmt.Fprintf(m, "sl = make([]%s, 2); sl[1] = a\nw = make(struct { F %s }); w.F = a\np = new(%s); *p = a\nx = a\nl = [a, 0]\nmp = {\"k\": a}\n", el.decl, el.decl, el.decl)
+		forms := []struct{ name, launch string }{
+			{"slice-slot", "go func() { try { c1 <- sl[1] } catch e { fail(1, e) } }()"},
+			{"struct-field", "go func(o) { try { o <- w.F } catch e { fail(2, e) } }(c2)"},
+			{"deref", "go func() { try { (c3) <- *p } catch e { fail(3, e) } }()"},
+			{"variable", "go func() { try { c4 <- x } catch e { fail(4, e) } }()"},
+			{"list-element", "go func(o) { try { o <- l[0] } catch e { fail(5, e) } }(c5)"},
+			{"map-entry", "go func() { try { c6 <- mp.k } catch e { fail(6, e) } }()"},
+		}
+		for i := range forms {
+			cn := "c" + strconv.Itoa(i+1)
+			mk(cn)
+			for j := 0; j < cp; j++ {
+				fmt.Fprintf(m, "%s <- %s\n", cn, it(5+j))
+			}
+		}
+		for _, f := range forms {
+			m.WriteString(f.launch + "\n")
+		}
+		fmt.Fprintf(m, "sendersparked(%d)\nsl[1] = b; w.F = b; *p = b; x = b; l[0] = b; mp.k = b\n", len(forms))
+		for i, f := range forms {
+			var want []string
+			for j := 0; j < cp; j++ {
+				want = append(want, val(5+j))
+			}
+			want = append(want, val(0))
+			fmt.Fprintf(m, "for j = 0; j <= %d; j++ { report(%q, (<-c%d)) }\n", cp, f.name, i+1)
+			g.expect(f.name, "blocked-send:delivers-later-content-of-the-operand:"+f.name, want...)
+		}
 	case "forin-slot-operand":
 		// `for v in sl[0]` ranges over the channel that is in the slot when the loop starts
 		// (the operand is evaluated once, like Go's range expression): assigning the slot in
@@ -2183,6 +2299,10 @@ func c16Judge(p *c16Prog, r *c16Run, h *c16Host) (viols []c16Verdict, inconc []c
 		inconc = append(inconc, c16Verdict{r.undecid, r.dlDetail})
 		return
 	}
+	if h.undecided != "" {
+		inconc = append(inconc, c16Verdict{h.undecided, h.undecDet})
+		return
+	}
 	if r.preFail > 0 {
 		o := r.pre[r.preFail-1]
 		v("earlier-call-error:"+ank.AbstractMsg(ank.ErrText(o.Err)), "call #%d on the environment (%s) failed: %s", r.preFail, p.pre[r.preFail-1].mode, ank.ErrText(o.Err))
@@ -2476,18 +2596,22 @@ func init() {
 				Level: "exploration",
 				Rule: "phase semantics: complete table scenario{one-value assignment of a receive, receive expression, v/ok form, for-in, receivers blocked in each form woken by close, send-on-closed/double-close in try and as top-level error, go-argument snapshot (variables, list/map elements, 2/5/variadic/anonymous/spread calls), generator, nil messages, shared entry / call site, " +
 					"a receive from another channel (receive expression, v/ok form, nested for-in) in the body of a for-in over a channel, channels read from typed slots ([]chan T element, struct field, *p) as go arguments and into bindings with the slot overwritten afterwards, " +
-					"sends of values of every type of the element's family (plain, host-defined named types Nanos/Duration/Level of the same kind, int32/float64) received converted to the element type} x 11 element types (interface, int64, float64, int32, string, []int64, named Nanos/Duration/Level) x capacity{0,1,3}. " +
+					"sends of values of every type of the element's family (plain, host-defined named types Nanos/Duration/Level of the same kind, int32/float64) received converted to the element type, " +
+					"six senders blocked in a send (no receiver / full buffer) whose operand was read from a []T element, a struct field of type T, *p, a variable, a list element, a map entry (T = the element type) and whose place is assigned another value while they wait - the host function sendersparked(n) returns once n goroutines are parked in the send, then the places are overwritten, then the messages are received: each is the value at the send statement} x 11 element types (interface, int64, float64, int32, string, []int64, named Nanos/Duration/Level) x capacity{0,1,3}. " +
 					"phases pipelines/pipelines-race: PRNG-generated pipeline programs (linear 2-4 stages with optional prefilled buffer, fan-in with counting closer, fan-out with tagged forwarding, capacity-discipline, " +
 					"zip: two producers and a stage `for x in a { y = <-b; out <- [x, y] }` that receives from its second input inside the for-in over the first - receive expression / v,ok / nested for-in left by break - optionally with a consumer that takes an acknowledgement inside its for-in) " +
 					"over channels of element type interface/int64/float64/int32/string/[]int64 and the host-defined named types Nanos, Duration (kind int64) and Level (kind string), capacity 0/1/2/n, producers sending plain values or (one program in three) values of a named type made by a host function, " +
 					"n in {0,1,2,50,1000} uniquely identified messages, stages launched with go through named/anonymous/closure/6-parameter/variadic/spread/element-argument calls whose argument variables are reassigned right after, and through calls whose channel arguments are read from typed slots ([]chan T element, struct field; directly or via a binding) that are assigned other channels right after (the stage reports the channels it got, identified by registered name, once a gate is closed), receive forms for-in / receive expression / v,ok / counted `out <- <-in` / (forwarding stages) counted implicit relay `out <- in`, " +
 					"host jitter() (PRNG-chosen Gosched/sleep) at PRNG-chosen points, closed-channel and failing-operation checks on the main goroutine at the end (the failing send / close is a plain statement or, in half of the programs, the body of a loop: for-in over a channel directly or in a called function, for-in over a list, C-style for); each program runs under GOMAXPROCS 1,2,4,16 x repetitions (race phase: -race worker, one GOMAXPROCS setting per worker process). " +
+					"phase stepped: one pipeline driven through several calls on one environment (starting calls, later-call / split / host consumers, see c16_r5.go); in two programs of five the stage functions (optionally the consumer loops and the channels) are defined by a library call of their own under a context that is cancelled as soon as that call has returned (vm.ExecuteContext, or parser.ParseSrc + vm.RunContext), and are started / called by later vm.Execute / vm.ExecuteContext calls. " +
 					"An evaluation = one run of one program; non-trivial when messages were delivered or closed-channel observations were made; distinct = distinct program source.",
 				Assumptions: []string{
 					"script goroutines communicate only through channels and locking host functions (no unsynchronised shared containers)",
 					"failing operations (send on closed, double close) are issued on the main script goroutine only: an error inside a `go` body has no receiver (C01 territory)",
 					"messages are never nil (a nil message is indistinguishable from the closed-channel result of a receive expression) and never channels (`out <- ch` is anko's receive-and-forward form, exercised as such: it must behave as `out <- <-ch`; a relay from a closed and drained channel is not generated, the statement does not say what it sends)",
 					"a goroutine and a channel made by one call on an environment live on after that call returned, as in Go (stepped programs); the host touches script-made channels only between calls and only with non-blocking operations; its end of the pipeline is judged stuck from goroutine states only (no interpreter goroutine left, or all of them parked in channel operations in two identical samples with no host operation possible)",
+					"the context handed to vm.ExecuteContext / vm.RunContext governs that call and the goroutines it started: cancelling it after the call has returned, when the call started no goroutine, affects no later call on the environment, whoever defined the functions the later call runs (library programs); cancelling a context while its call or its goroutines still run is C02's matter and is not generated here",
+					"the value a send delivers is the value its operand had when the send statement was executed, as in Go (`c <- s[0]` evaluates s[0] before it blocks); the order in which the two operands of a send are evaluated is not relied upon: the place is overwritten only after the sender has been seen parked in the send (goroutine states; a wait that never sees them is inconclusive)",
 					"errors other than send-on-closed and second close (e.g. a failed conversion of the value sent) are not provoked in loop bodies: the statement names these two",
 					"conversions to the element type are exact ones only (int64 to float64/int32, integral float64 to int64, []interface{} of ints to []int64, between int64/Nanos/Duration and between string/Level)",
 					"named element types are bound by the host with DefineType and values of them are made by host functions; the channels themselves are always made by the script (channels made by the host, e.g. send-only ones, are outside the statement)",
